@@ -10,6 +10,7 @@ import (
 	"encoding/json"
 	"fmt"
 	"math"
+	"math/bits"
 	"math/rand"
 	"os"
 	"runtime"
@@ -364,6 +365,17 @@ func runClosedLoop(run *ev.Run, pc pacerCase) c01Stats {
 		}
 		t2 := t + wpos
 		sAt := ref.cum(float64(t2))
+		if fastRegime && pc.Kind == "constant" && int64(pc.Freq) > pc.Per { // zero integer interval: the pacer computes the due instant itself
+			// More than 0.1 hit/ns: the float schedule with its quantisation tolerance says
+			// nothing here, but for the constant pacer U can be judged exactly in integers:
+			// hit k+1 released at t2 needs k <= Freq*t2/Per, i.e. k*Per <= Freq*t2.
+			lh, ll := bits.Mul64(k, uint64(pc.Per))
+			rh, rl := bits.Mul64(uint64(pc.Freq), uint64(t2))
+			if lh > rh || (lh == rh && ll > rl) {
+				viol("U-early-exact", step, t, k, w, stop, sAt, sT, 0, nil)
+				return st
+			}
+		}
 		if !fastRegime {
 			ahead := (float64(k) + 1) - sAt
 			if ahead > st.maxAhead {
